@@ -81,18 +81,84 @@ for name, pl, q in [("p1_q0", 1, 0), ("p4_q0", 4, 0), ("p5_q0", 5, 0), ("p8_q0",
                    "payload %d bytes, %s; every header field symbolic (validity of fragment numbers not assumed: write side only)"
                    % (pl, _QS[q])))
 
+
+# ---- whole messages (c14_msg.rs, child of rtps::message)
+_mm = "rtps::message::verif_harness_c14_msg"
+_MSG = ("whole-message round trip: the Message is built by the real MessageBuilder / create_submessage functions, serialised by "
+        "Writable for Message (context byte order = the OPPOSITE of the submessages' flag: must not matter); (1) a foreign receiver's walk "
+        "over the bytes: kind / flags / octetsToNextHeader of every submessage header lead exactly to the next header and to the end of "
+        "the message, lengths are multiples of 4; (2) the real parser on these bytes returns the same header and, per position, a "
+        "submessage with equal header (kind, flags, content_length) and equal body field by field (DATA payload up to the zero padding "
+        "to 4), original_bytes = header + body, and continues exactly at the next submessage header")
+_PER = ("; parser = Header::read_from_buffer + the real Submessage::read_from_buffer called on the real rest of the message at every "
+        "submessage boundary (Message::read_from_buffer's 5-line loop unrolled by the harness, see assumptions)")
+_REAL = "; parser = the real Message::read_from_buffer"
+_msg = []
+def _M(name, shape, bounds, tier="thorough", real=False):
+    _msg.append(H(name, _mm, "[" + shape + "] " + _MSG + (_REAL if real else _PER), bounds, tier=tier, timeout=2400))
+_SYM = "all field values symbolic at full width (guid prefixes, entity ids, sequence numbers, counts, timestamp, bitmap words, payload bytes)"
+_M("c14_msg_hb_le", "HEARTBEAT", "LE, no F/L flag; " + _SYM, tier="quick", real=True)
+_M("c14_msg_hb_be_final", "HEARTBEAT", "BE, Final flag; " + _SYM, real=True)
+_M("c14_msg_hb_le_liveliness", "HEARTBEAT", "LE, Liveliness flag; " + _SYM, real=True)
+_M("c14_msg_dst_ts0_hb_le", "INFO_DST, INFO_TS(invalidate: NO body, octetsToNextHeader 0 in the MIDDLE), HEARTBEAT", "LE; " + _SYM, tier="quick")
+_M("c14_msg_dst_ts0_hb_be", "INFO_DST, INFO_TS(invalidate, no body), HEARTBEAT", "BE; " + _SYM)
+_M("c14_msg_dst_ts_hb_le", "INFO_DST, INFO_TS(timestamp), HEARTBEAT", "LE; " + _SYM)
+_M("c14_msg_dst_ts_hb_be", "INFO_DST, INFO_TS(timestamp), HEARTBEAT", "BE; " + _SYM)
+_M("c14_msg_ts0_hb_le", "INFO_TS(invalidate, no body) FIRST, HEARTBEAT(Final)", "LE; " + _SYM)
+_M("c14_msg_ts0_hb_be", "INFO_TS(invalidate, no body) FIRST, HEARTBEAT(Final)", "BE; " + _SYM)
+_M("c14_msg_dst_ts0_le", "INFO_DST, INFO_TS(invalidate, no body) LAST", "LE; " + _SYM)
+_M("c14_msg_dst_ts0_be", "INFO_DST, INFO_TS(invalidate, no body) LAST", "BE; " + _SYM)
+_M("c14_msg_ts_gap_0_le", "INFO_TS, GAP (real gap_msg_before: empty gap list)", "LE, num_bits 0; " + _SYM)
+_M("c14_msg_ts_gap_0_be", "INFO_TS, GAP (real gap_msg_before)", "BE, num_bits 0; " + _SYM)
+_M("c14_msg_ts_gap_33_le", "INFO_TS, GAP (Gap::create_submessage, any 33-bit gap list)", "LE, num_bits 33; " + _SYM)
+_M("c14_msg_ts_gap_32_be", "INFO_TS, GAP (Gap::create_submessage, any 32-bit gap list)", "BE, num_bits 32; " + _SYM)
+_M("c14_msg_dst_acknack_0_le", "INFO_DST, ACKNACK as Reader::send_acknack_to", "LE, Final, num_bits 0; " + _SYM)
+_M("c14_msg_dst_acknack_1_be", "INFO_DST, ACKNACK", "BE, num_bits 1; " + _SYM)
+_M("c14_msg_dst_acknack_33_le", "INFO_DST, ACKNACK as Reader::send_acknack_to", "LE, num_bits 33; " + _SYM)
+_M("c14_msg_dst_acknack_32_be", "INFO_DST, ACKNACK", "BE, Final, num_bits 32; " + _SYM)
+_M("c14_msg_dst_nackfrag2_1_33_le", "INFO_DST, NACK_FRAG, NACK_FRAG as Reader::send_nackfrags_to", "LE, num_bits 1 and 33; " + _SYM)
+_M("c14_msg_dst_nackfrag2_32_0_be", "INFO_DST, NACK_FRAG, NACK_FRAG", "BE, num_bits 32 and 0; " + _SYM)
+for n, en in ((0, "le"), (1, "le"), (2, "be"), (3, "le"), (4, "be"), (5, "le")):
+    _M("c14_msg_ts_data%d_hb_%s" % (n, en), "INFO_TS, DATA, HEARTBEAT as Writer::send_cache_change (real data_msg, no inline QoS)",
+       "%s; serialized payload = 4 header bytes + %d value bytes (padded to 4 on the wire); %s" % (en.upper(), n, _SYM))
+for f, en in ((1, "le"), (2, "be"), (3, "le")):
+    _M("c14_msg_ts_datafrag_f%d_%s" % (f, en), "INFO_TS, DATA_FRAG (real data_frag_msg; the 4-alignment of a trailing DATA_FRAG is not asserted: RustDDS does not pad it)",
+       "%s; fragment %d of a 9-byte sample cut at 4 bytes (4, 4, 1 bytes); %s" % (en.upper(), f, _SYM))
+
+# ---- remaining submessage bodies and the RTPS header (c14_bodies.rs, child of rtps::submessage)
+_bo = "rtps::submessage::verif_harness_c14_bodies"
+_BODY = ("%s: body bytes written == %s; read(write(m)) == m field by field; write(read(b)) == b (the PARSED value re-serialises to "
+         "the same bytes)%s")
+_CS = "; create_submessage: content_length == body bytes, multiple of 4, framed kind / flags / length bytes agree with the body"
+_bodies = []
+_QB = {"c14_gap_roundtrip_33_be", "c14_acknack_roundtrip_33_le", "c14_nackfrag_roundtrip_1_be"}
+for kind, size, grid in (("gap", "28 + 4*ceil(num_bits/32)", ((0, "le"), (1, "be"), (32, "le"), (33, "be"))),
+                         ("acknack", "24 + 4*ceil(num_bits/32) == len_serialized()", ((0, "be"), (1, "le"), (32, "be"), (33, "le"))),
+                         ("nackfrag", "28 + 4*ceil(num_bits/32) == len_serialized()", ((0, "le"), (1, "be"), (32, "le"), (33, "be")))):
+    for nb, en in grid:
+        nm = "c14_%s_roundtrip_%d_%s" % (kind, nb, en)
+        _bodies.append(H(nm, _bo, _BODY % (kind.upper(), size, _CS), _W % nb + "; byte order " + en.upper() + "; ids / SNs / count symbolic",
+                         tier="quick" if nm in _QB else "thorough"))
+_bodies.append(H("c14_heartbeatfrag_roundtrip", _bo, _BODY % ("HEARTBEAT_FRAG", "24", " (RustDDS never builds this kind: no create_submessage)"), "all fields and byte order symbolic", tier="thorough"))
+_bodies.append(H("c14_infodst_roundtrip", _bo, _BODY % ("INFO_DST", "12 == len_serialized()", _CS), "prefix, flags byte and byte order symbolic"))
+_bodies.append(H("c14_infosrc_roundtrip", _bo, _BODY % ("INFO_SRC", "20", " (built only by the security feature)"), "all fields and byte order symbolic", tier="thorough"))
+_bodies.append(H("c14_infots_roundtrip", _bo, _BODY % ("INFO_TS body (Timestamp)", "8, seconds before fraction", ""), "any 64-bit tick count, byte order symbolic"))
+_bodies.append(H("c14_header_roundtrip", _bo, _BODY % ("RTPS Header", "20, magic 'RTPS', version and vendor bytes in place", ""),
+                 "any version / vendor / prefix, protocol id RTPS (the only one RustDDS can construct), context byte order symbolic"))
+
 PROP = {
     "title": "every emitted RTPS message parses back to itself",
     "design_ref": "DESIGN.md section 3, C14",
     "inject": {
-        "src/rtps/submessage.rs": ["c14_submsg"],
+        "src/rtps/submessage.rs": ["c14_submsg", "c14_bodies"],
         "src/rtps/message.rs": ["c14_msg"],
         "src/structure/sequence_number.rs": ["c14_numset"],
         "src/messages/submessages/data.rs": ["c14_data"],
     },
     "shim_files": RTPS_SHIM_FILES + ["src/structure/sequence_number.rs", "src/rtps/message.rs"],
     "cap": {"quick": 4, "thorough": 4},
-    "harnesses": _numset + _submsg + _data,
+    "harnesses": _numset + _submsg + _bodies + _data + _msg,
+    "cbmc_args": ["--max-field-sensitivity-array-size", "256"],
     "bounds": {"unwind": "3..36 (259 for the whole-window iterator instances)",
                "num_bits grid": [0, 1, 31, 32, 33, 255, 256],
                "payload length grid": "absent, 0, 1, 2, 3, 4, 5, 8 (every residue mod 4)",
